@@ -150,6 +150,13 @@ func fname(fn *ssa.Function) string {
 		return "<nil>"
 	}
 	s := fn.String()
+	// a function of the reference tree that was only renamed keeps its old name in keys and tables
+	for old, nu := range renamedAnchors {
+		if s == nu || strings.HasPrefix(s, nu+"$") {
+			s = old + s[len(nu):]
+			break
+		}
+	}
 	s = strings.ReplaceAll(s, modulePath+"/internal/", "")
 	return s
 }
